@@ -15,6 +15,7 @@ def run(F, R, tier):
     r01_10(duke, R, S)
     r01_11(duke, R, S)
     r01_12(duke, R, S)
+    r01_9(F, R)
     return ("A5 tables against JVMS: class_constants (opcodes, pool tags, handle kinds, atype, attribute names, magic); the second-pass decode table for "
             "all 256 opcode bytes and all 256 wide sub-opcodes (variant, implied index, operand bytes, operand kinds) and its agreement with the "
             "label-creating first pass; switch shapes; PoolRead::read tag->layout->variant->slots and as_X destructuring, method-handle kind table; "
@@ -776,3 +777,12 @@ def r01_12(duke, R, S):
                 R.inst("R01.12", "exception_table.%s" % fld["name"], calls == [want[fld["name"]]], sp=fld["e"]["sp"], expect=want[fld["name"]], got=calls,
                        detail="JVMS 4.7.3: start_pc and handler_pc are instruction offsets, end_pc is exclusive and may equal code_length")
     R.floor("R01.12", 7)
+
+
+# ------------------------------------------------------------------------------------ R01.9
+def r01_9(F, R):
+    D.narrowing_rule(F, R, "R01.9",
+                     "every narrowing `as` cast on the read path (class_reader, its pool and label helpers, ClassRead) is proved lossless by the "
+                     "interval analysis over the monomorphic MIR (e.g. `code_length as u16` after the `> u16::MAX` check), or is a reviewed intended "
+                     "truncation (Java narrowing of annotation constants)",
+                     lambda f: f.path.startswith("duke::class_reader") or "ClassRead" in f.path, 8)
